@@ -222,7 +222,7 @@ class TlsHandshakeType(enum.IntEnum):
     SUPPLEMENTAL_DATA = 0x17
     KEY_UPDATE = 0x18
     COMPRESSED_CERTIFICATE = 0x19
-    EKT_KEY = 0x15
+    EKT_KEY = 0x1a
     MESSAGE_HASH = 254
 
 
